@@ -16,7 +16,7 @@ from glue.core.message import (DataUpdateMessage, DataRemoveComponentMessage,
                                ComponentReplacedMessage, DataReorderComponentMessage,
                                ExternallyDerivableComponentsChangedMessage,
                                PixelAlignedDataChangedMessage)
-from glue.core.decorators import clear_cache
+from glue.core.decorators import clear_all_caches
 from glue.core.util import split_component_view
 from glue.core.hub import Hub
 from glue.core.subset import Subset, SubsetState, SliceSubsetState
@@ -1100,6 +1100,9 @@ class Data(BaseCartesianData):
         is_present = component_id in self._components
         self._components[component_id] = component
 
+        if is_present:
+            clear_all_caches()
+
         if self.hub and not is_present:
             msg = DataAddComponentMessage(self, component_id)
             self.hub.broadcast(msg)
@@ -1551,8 +1554,7 @@ class Data(BaseCartesianData):
             msg = NumericalDataChangedMessage(self, components_changed=list(mapping.keys()))
             self.hub.broadcast(msg)
 
-        for subset in self.subsets:
-            clear_cache(subset.subset_state.to_mask)
+        clear_all_caches()
 
     def update_values_from_data(self, data):
         """
@@ -1623,8 +1625,7 @@ class Data(BaseCartesianData):
             msg = NumericalDataChangedMessage(self)
             self.hub.broadcast(msg)
 
-        for subset in self.subsets:
-            clear_cache(subset.subset_state.to_mask)
+        clear_all_caches()
 
     # The following are methods for accessing the data in various ways that
     # can be overriden by subclasses that want to improve performance.
